@@ -19,7 +19,7 @@ EXPLANATION = (
     "keep-filter of the right polarity; S7 the tabular backend resumes strictly after the paused level; S8 one copied "
     "log row per delivery. NOT decided: batching of real worker output between polls; order of equal time stamps.")
 
-FLOOR = {"S1": 3, "S2": 2, "S3": 2, "S4": 1, "S5": 3, "S6": 4, "S7": 3, "S8": 3}
+FLOOR = {"S1": 3, "S2": 2, "S3": 2, "S4": 1, "S5": 4, "S6": 4, "S7": 3, "S8": 3}
 
 
 def decision_edges(ctx, f, const_name):
@@ -238,6 +238,29 @@ def s5(ctx, rep):
                     "mailbox reset drops results without advancing the cursors: they are delivered again after a resume")
     if n_inst < 2:
         raise AnchorError("SimulatorBackend.fetch_status_results: mailbox removals not found")
+    # the mailbox is drained on every exit: results of trials that were not polled (e.g. paused during the stop
+    # delay) must be counted as seen and dropped now, otherwise they are delivered after a resume
+    resets = {n.id for n in cfg.nodes if n.kind == "stmt" and isinstance(n.ast, ast.Assign) and any(
+        isinstance(t, ast.Attribute) and t.attr == box for t in n.ast.targets)
+        and (isinstance(n.ast.value, ast.Dict) and not n.ast.value.keys or
+             (isinstance(n.ast.value, ast.Call) and fn_name(n.ast.value) == "dict" and not n.ast.value.args and not n.ast.value.keywords))}
+    resets |= {n.id for n in cfg.nodes if any(isinstance(x, ast.Call) and fn_name(x) == "clear" and box in U(x.func.value)
+                                             for x in cfg.node_walk(n.id))}
+
+    def edge_ok(label):
+        # an edge on which the mailbox is known to be empty ends the obligation
+        if isinstance(label, tuple) and label[0] == "cond":
+            at = atoms_of(label[1], label[2])
+            if any(a[0] == "truth" and a[1] == "self." + box and a[2] is False for a in at):
+                return False
+            if any(a[0] == "eq" and a[3] is True and f"len(self.{box})" in (a[1], a[2]) and "0" in (a[1], a[2]) for a in at):
+                return False
+        return True
+    p = cfg.path(cfg.entry, cfg.exit, deleted=resets, skip_labels=("exc",), edge_ok=edge_ok)
+    rep.put(p is None, "S5", "must_follow", f"SimulatorBackend.fetch_status_results: {box} drained on every exit", f, None,
+            "every return is preceded by the reset of the mailbox or by a test that found it empty",
+            "fetch_status_results can return with results left in the mailbox (not counted as seen): results a trial "
+            "reported before it was paused are delivered after it is resumed", witness=cfg.describe_path(p) if p else None)
     # re-run returns all_results[counter:]
     g = P.method("SimulatorBackend", "_run_job_and_collect_results")
     ok = False
